@@ -33,11 +33,14 @@ Pool == << Field(B("Name"), <<>>, "string", NoT), Field(B("Name"), <<>>, "int", 
 Idx == 1..Len(Pool)
 Distinct(is) == \A i, j \in 1..Len(is) : i < j => (is[i] < is[j] /\ Pool[is[i]].go # Pool[is[j]].go)
 TOf(is, tn) == [tname |-> tn, fields |-> [i \in 1..Len(is) |-> Pool[is[i]]]]
-Vals == { IntV(1), StrV(B("s")), NilV, FloatV(5, 2), BoolV(TRUE), AtomV("int", "maxint"), AtomV("float", "maxfloat") }
+Esc == <<113, 34, 92, 10, 9, 195, 169, 35>>      \* q " \ LF TAB e-acute # : a string value that needs every escape class
+Vals == { IntV(1), StrV(B("s")), NilV, FloatV(5, 2), BoolV(TRUE), AtomV("int", "maxint"), AtomV("float", "maxfloat"),
+          IntV(0), IntV(-5), StrV(<<>>), StrV(Esc), FloatV(-5, 2), V("float", 0, 1, <<>>, ""), BoolV(FALSE), AtomV("int", "minint"), AtomV("float", "tinyfloat") }
 ValsQ == { IntV(1), StrV(B("s")), NilV, FloatV(5, 2), BoolV(TRUE) }
 InnerBlk(nm) == [type |-> B("inner"), name |-> nm, ents |-> << Ent(B("x"), IntV(7)) >>]
 Keys == IF Small THEN {"x", "X", "foo_bar", "foobar", "y", "name", "p"} ELSE {"x", "X", "foo_bar", "foobar", "f_oo_bar", "y", "any", "name", "p"}
 EntsPool == { Ent(B(k), v) : k \in Keys, v \in (IF Small THEN {IntV(1), StrV(B("s")), NilV} ELSE Vals) }
+              \cup { Ent(B("x"), StrV(Esc)), Ent(B("foo_bar"), IntV(-5)), Ent(B("y"), StrV(<<>>)) }
               \cup { EntB(B("inner"), InnerBlk(<<>>)), EntB(B("inner.n"), InnerBlk(B("n"))) }
 DistinctKeys(es) == \A i, j \in 1..Len(es) : i # j => es[i].k # es[j].k
 
